@@ -104,7 +104,7 @@ package scorch
 //@     all(x, uint32, implies(bin(os.deleted, x) || (in(obs, os.id) && bin(obs[os.id], x)), bin(ns.deleted, x)))
 
 //@ func Scorch.introduceSegment
-//@   props C01 C20 C08
+//@   props C01 C20
 //@   mode int
 //@   locks
 //@   requires s != nil && next != nil && s.root != nil && !held(s.rootLock) && rheld(s.rootLock) == 0 && len(s.root.segment) <= 1048576
